@@ -32,10 +32,10 @@ py2coq.COQ_TY.update({"C": "(R * R)", "sig": "Sig", "tuple[C,C]": "((R * R) * (R
 PRELUDE_EXTRA = ("From PyrexLib Require Import CPair SignalAlg ListOps.\n"
                  "From PyrexGen Require Import Gen_ice.\n")
 
-PATH_RECORD = [("theta0", "R"), ("n0", "R"), ("z0", "R"), ("z1", "R"), ("dz", "R"), ("direct", "bool"),
+PATH_RECORD = [("theta0", "R"), ("phi", "R"), ("n0", "R"), ("z0", "R"), ("z1", "R"), ("dz", "R"), ("direct", "bool"),
                ("z_turn", "R"), ("z_turn_proximity", "R"), ("tof", "R"), ("ice", "Ice"),
                ("emitted_direction", "vec3"), ("received_direction", "vec3")]
-UPATH_RECORD = [("n0", "R"), ("tof", "R"), ("ice", "UIce"), ("emitted_direction", "vec3"), ("received_direction", "vec3")]
+UPATH_RECORD = [("n0", "R"), ("phi", "R"), ("tof", "R"), ("ice", "UIce"), ("emitted_direction", "vec3"), ("received_direction", "vec3")]
 
 ICE_PREFIX = {"Ice": "AntarcticIce", "UIce": "UniformIce"}
 ICE_METHODS = {"index": "R", "attenuation_length": "R", "index_above": "R", "index_below": "R"}
@@ -203,6 +203,10 @@ class PropFnTr(AntFnTr):
                 b, tb = self.expr(n.args[1])
                 if {ta, tb} <= {"vec3", "listR3"}:
                     return "(vdot %s %s)" % (a, b), "R"
+            if name == "any" and len(n.args) == 1 and not kw:
+                a, ta = self.expr(n.args[0])
+                if ta == "vec3":
+                    return "(vany %s)" % a, "bool"
             if name == "sum" and len(n.args) == 1 and not kw:
                 a, ta = self.expr(n.args[0])
                 if ta == "pair":
@@ -556,7 +560,7 @@ def generate(repo):
     n2t = [s for s in ifs[0].orelse if isinstance(s, ast.Assign) and py2coq.names_of(s.targets[0]) == ["n_2"]]
     if len(n2t) != 1 or ast.dump(n2t[0].value) != dump("path_2.ice.index(path_2.from_point[2])"):
         mod2.err(ifs[0], "transmission n_2 is not the next layer's index at its start point")
-    mod2.emit("Record LPath := mkLPath {\n  LPath_n0 : R;\n  LPath_tof : R;\n  LPath_ice : UIce;\n  LPath_emitted_direction : (R * R * R);\n  LPath_received_direction : (R * R * R)\n}.")
+    mod2.emit("Record LPath := mkLPath {\n  LPath_n0 : R;\n  LPath_phi : R;\n  LPath_tof : R;\n  LPath_ice : UIce;\n  LPath_emitted_direction : (R * R * R);\n  LPath_received_direction : (R * R * R)\n}.")
     c, node = mod2.find_member("LayeredRayTracePath", "propagate")
     translate_propagate(mod2, "LayeredRayTracePath", "LPath", node, enum, basic=False)
 
@@ -575,16 +579,17 @@ def translate_propagate(mod, cname, rec, node, enum, basic):
         mod.err(node, "%s.propagate: unexpected top-level shape" % cname)
     both = list(body[0].orelse)
     # the three basis statements, then `if signal is None: return (u_s0, u_p1) else: ...`
-    basis = both[:3]
+    basis = both[:4]
     want = ["u_s0 = normalize(np.cross(self.emitted_direction, [0, 0, 1]))",
+            "if not np.any(u_s0):\n    u_s0 = np.array([np.sin(self.phi), -np.cos(self.phi), 0])",
             "u_p0 = normalize(np.cross(u_s0, self.emitted_direction))",
             "u_p1 = normalize(np.cross(u_s0, self.received_direction))"]
-    if len(both) != 4 or not isinstance(both[3], ast.If) or ast.dump(both[3].test) != dump("signal is None"):
-        mod.err(node, "%s.propagate: unexpected shape of the polarization branch" % cname)
-    onlypol = both[3].body
+    if len(both) != 5 or not isinstance(both[4], ast.If) or ast.dump(both[4].test) != dump("signal is None"):
+        mod.err(node, "%s.propagate: unexpected shape of the polarization branch (the vertical-ray case must be handled)" % cname)
+    onlypol = both[4].body
     if len(onlypol) != 1 or ast.dump(onlypol[0]) != ast.dump(ast.parse("return (u_s0, u_p1)").body[0]):
         mod.err(node, "%s.propagate: the polarization-only branch does not return (u_s0, u_p1)" % cname)
-    main = list(both[3].orelse)
+    main = list(both[4].orelse)
     opaque = {dump("self.fresnel"): ("fresnel", "tuple[C,C]"), dump("self.tof"): ("(%s_tof self)" % rec, "R")}
     params = ["self", "signal", "polarization", "fresnel"]
     ptypes = {"signal": "sig", "polarization": "vec3", "fresnel": "tuple[C,C]"}
